@@ -24,7 +24,7 @@ def summarise(ro, plan, verdicts=(), extra_sums=None) -> dict:
     """Common statistics of a run for the aggregate / evidence."""
     st = ro.stats or {}
     counts = dict(st.get("counts") or {})
-    faults = {k: counts.get(k, 0) for k in ("stall", "starve", "slow_user", "line_preempt", "hot_line_preempt", "fairness_override", "wall_comp_sleep", "carry_over_start", "drain_gave_up", "timeout_args") if counts.get(k)}
+    faults = {k: counts.get(k, 0) for k in ("stall", "starve", "slow_user", "line_preempt", "hot_line_preempt", "fairness_override", "wall_comp_sleep", "carry_over_start", "drain_gave_up", "timeout_args", "reconfig_between_episodes") if counts.get(k)}
     faults["preempt"] = st.get("preempts", 0)
     strategies = {}
     sim_time = 0.0
@@ -68,3 +68,68 @@ def sample_of(plan, ro, verdict="ok") -> dict:
     return dict(spec=plan["spec"], episodes=[{k: v for k, v in e.items() if k != "slow_user"} for e in plan["episodes"]], first_decisions=ro.decisions[:40],
                 n_choices=len(ro.decisions), verdict=verdict,
                 records={f"ep{i}": ({n: len(r.steps.seq) for n, r in eo.record.nodes.items()} if eo.record is not None else None) for i, eo in enumerate(ro.episodes)})
+
+
+def add_reconfig(r: random.Random, spec: dict, eps: list, p: float = 0.25) -> None:
+    """With probability p, later episodes are preceded by a change of one expected delay (set_delay(delay=...)) on a node or connection.
+    The configuration in force for an episode is stored in ep["spec_after"] for the oracles."""
+    import copy
+
+    from simrex import spec as sp_
+
+    cur = spec
+    for j in range(1, len(eps)):
+        if r.random() >= p:
+            if cur is not spec:
+                eps[j]["spec_after"] = cur
+            continue
+        nxt = copy.deepcopy(cur)
+        names = [nd["name"] for nd in nxt["nodes"]]
+        ops = []
+        if r.random() < 0.5:
+            i = r.randrange(len(nxt["nodes"]))
+            per = 1.0 / nxt["nodes"][i]["rate"]
+            val = sp_._r6(per * r.choice([0.0, 0.2, 0.45, 0.7, 1.0]))
+            nxt["nodes"][i]["delay"] = val
+            ops.append(["node", names[i], val])
+        else:
+            ci = r.randrange(len(nxt["conns"]))
+            c = nxt["conns"][ci]
+            per = min(1.0 / nxt["nodes"][c["dst"]]["rate"], 1.0 / nxt["nodes"][c["src"]]["rate"])
+            val = sp_._r6(per * r.choice([0.0, 0.2, 0.45, 0.7, 1.0]))
+            c["delay"] = val
+            ops.append(["conn", names[c["dst"]], sp_.input_name(nxt, c), val])
+        if sp_.in_S(nxt) is None:
+            eps[j]["reconfig"] = ops
+            eps[j]["spec_after"] = nxt
+            cur = nxt
+        elif cur is not spec:
+            eps[j]["spec_after"] = cur
+
+
+def snapshot_delays(nodes) -> dict:
+    """Expected delays of freshly built node objects (before any reconfiguration): {("node", name): d, ("conn", dst, input_name): d}."""
+    out = {}
+    for n, nd in nodes.items():
+        out[("node", n)] = float(nd.delay)
+        for iname, c in nd.inputs.items():
+            out[("conn", n, iname)] = float(c.delay)
+    return out
+
+
+def materialise(spec: dict, snap: dict) -> dict:
+    """Copy of spec in which expected delays left to rex's default (None) are replaced by the values the freshly built nodes had."""
+    import copy
+
+    from simrex import spec as sp_
+
+    s = copy.deepcopy(spec)
+    names = [nd["name"] for nd in s["nodes"]]
+    for nd in s["nodes"]:
+        if nd.get("delay") is None and ("node", nd["name"]) in snap:
+            nd["delay"] = snap[("node", nd["name"])]
+    for c in s["conns"]:
+        key = ("conn", names[c["dst"]], sp_.input_name(s, c))
+        if c.get("delay") is None and key in snap:
+            c["delay"] = snap[key]
+    return s
